@@ -26,8 +26,21 @@ Go packages), never wiped between runs.
               generated into also holds a hand-written file and is listed under `autobind:` (or its types are bound
               through `models:`), the model package is the exec package itself or a separate one, further hand-written
               packages are autobound in a random order. `meta["regen"]` is the summary for driver_c18 `gen2`.
+  modular     project LAYOUT: `exec.layout: follow-schema` over SEVERAL schema files in several directories, base names
+              shared between directories (users/schema.graphql, orders/schema.graphql -> ONE schema.generated.go), files
+              that hold only enums / scalars / interfaces / unions, directives WITH ARGUMENTS defined in some of the files
+              (type-system and, in the source the unchanged generator pins, executable ones), explicit `schema:` list in
+              random order or globs, `filename_template`, follow-schema / single-file / no resolvers.
+              codegen.generatePerSchema pins each per-file build to the source of the element that creates it.
+              `layout_summary` derives the input of driver_c18 `pins` from ANY follow-schema project's files.
+  extrafields `models.<Type>.extraFields` (a Go map) with 2-7 entries, `embedExtraFields`, `@goExtraField` with and
+              without name, on objects and inputs, builtin / pointer / slice / named types from the standard library and
+              from a hand-written package. `extra_summary` derives the input of driver_c18 `xf`.
 """
+import fnmatch
+import glob
 import os
+import re
 
 WORDS = ["Order", "Address", "Basket", "Carton", "Dealer", "Engine", "Farmer", "Garden", "Harbor", "Island", "Jacket",
          "Kettle", "Ladder", "Magnet", "Napkin", "Orchid", "Pillow", "Quiver", "Rocket", "Saddle", "Tunnel", "Velvet",
@@ -324,6 +337,341 @@ def autobind(rng, name):
     return {"files": files, "meta": {"dimension": "autobind", "models_in_exec_package": in_exec, "model_package_autobound": bind_auto,
                                      "autobind_packages": len(auto), "hand_written_in_model_package": hand, "generated": gen + [enum, "New" + inp],
                                      "regen": {"types": every + [enum, "New" + inp], "hand": hand + ext, "autobind": bind_auto}}}
+
+
+# ------------------------------------------------------------------------------------------------ modular layout
+MOD_DIRS = ["users", "orders", "billing", "catalog", "shared", "internal/audit"]
+MOD_BASES = ["schema", "types", "common", "api", "enums"]
+DIR_LOCS = "FIELD_DEFINITION | ARGUMENT_DEFINITION | INPUT_FIELD_DEFINITION | OBJECT | ENUM_VALUE"
+
+
+def modular(rng, name, shared_uncovered=False):
+    """shared_uncovered: also produce same-named files WITHOUT object / input types that define directives with arguments
+    (the shape of open finding F18b; generated projects leave it to the corpus)."""
+    ndirs = 2 + rng.below(3)
+    dirs = shuffle(rng, MOD_DIRS)[:ndirs]
+    bases = shuffle(rng, MOD_BASES)[:1 + rng.below(3)]
+    ext = ".graphql"
+    present = {}
+    for bi, b in enumerate(bases):
+        share = shuffle(rng, dirs)[:(2 + rng.below(ndirs - 1)) if bi == 0 or rng.below(2) else 1]
+        for d in share:
+            present[(d, b)] = True
+    tn = shuffle(rng, WORDS)
+    fn = {}
+    files = {k: {"objects": [], "inputs": [], "enums": [], "scalars": [], "ifaces": [], "unions": [], "dirs": []} for k in present}
+    keys = sorted(present)
+    # per output group: is it object/input free? (only for bases beyond the first, sometimes)
+    typeonly_base = {b: (bi > 0 and rng.below(3) == 0) for bi, b in enumerate(bases)}
+    for k in keys:
+        f = files[k]
+        if not typeonly_base[k[1]]:
+            for _ in range(1 + rng.below(3)):
+                f["objects"].append(tn.pop())
+            if rng.below(2):
+                f["inputs"].append(tn.pop() + "Input")
+        for _ in range(rng.below(3) + (1 if typeonly_base[k[1]] else 0)):
+            f["enums"].append(tn.pop() + "Kind")
+        if rng.below(3) == 0:
+            f["scalars"].append(tn.pop() + "Stamp")
+        if rng.below(3) == 0:
+            f["ifaces"].append(tn.pop() + "Like")
+    # where Query lives: a file with objects
+    with_objs = [k for k in keys if files[k]["objects"]]
+    qhome = with_objs[rng.below(len(with_objs))]
+    # the source the UNCHANGED generator pins for each output group: source of the alphabetically first object
+    # (else input) of the group; `Query` counts
+    def pinned(base):
+        objs = [(o, k) for k in keys if k[1] == base for o in files[k]["objects"]] + ([("Query", qhome)] if qhome[1] == base else [])
+        if objs:
+            return min(objs)[1]
+        ins = [(o, k) for k in keys if k[1] == base for o in files[k]["inputs"]]
+        return min(ins)[1] if ins else None
+    # directives with arguments
+    dcount = 0
+    argdirs = []
+    for b in bases:
+        group = [k for k in keys if k[1] == b]
+        pin = pinned(b)
+        for k in shuffle(rng, group):
+            if pin is None and len(group) > 1 and not shared_uncovered:
+                continue            # F18b: which of the sources is pinned depends on map order on the unchanged tree
+            if rng.below(2) == 0 or (len(group) > 1 and not any(files[g]["dirs"] for g in group)):
+                dn = "%s%d" % (["auth", "limit", "audit", "mask"][rng.below(4)], dcount)
+                dcount += 1
+                files[k]["dirs"].append("directive @%s(role: String!, level: Int = %d) on %s" % (dn, rng.below(9), DIR_LOCS))
+                argdirs.append(dn)
+        if pin is not None and rng.below(3) == 0:
+            # an executable directive: its middleware functions must land in a file; only the pinned source's do
+            dn = "trace%d" % dcount
+            dcount += 1
+            files[pin]["dirs"].append("directive @%s(tag: String, depth: Int) on QUERY | FIELD" % dn)
+    all_objs = [o for k in keys for o in files[k]["objects"]]
+    all_enums = [e for k in keys for e in files[k]["enums"]]
+    all_scalars = [e for k in keys for e in files[k]["scalars"]]
+    all_ifaces = [e for k in keys for e in files[k]["ifaces"]]
+    all_inputs = [e for k in keys for e in files[k]["inputs"]]
+    impl = {}
+    for i in all_ifaces:
+        impl[i] = shuffle(rng, all_objs)[:1 + rng.below(2)]
+    text = {}
+    used = set()
+
+    def deco():
+        if argdirs and rng.below(3) == 0:
+            d = argdirs[rng.below(len(argdirs))]
+            return ' @%s(role: "r%d")' % (d, rng.below(5))
+        return ""
+
+    qfields = {k: [] for k in keys}
+    for k in keys:
+        f = files[k]
+        out = [d + "\n" for d in f["dirs"]]
+        for e in f["scalars"]:
+            out.append("scalar %s\n" % e)
+        for e in f["enums"]:
+            out.append("enum %s {\n  LOW%s\n  HIGH\n}\n" % (e, deco()))
+        for i in f["ifaces"]:
+            out.append("interface %s {\n  id: ID!\n}\n" % i)
+        for o in f["objects"]:
+            fp = shuffle(rng, FIELDS)
+            body = ["id: ID!", "%s: String%s" % (fp.pop(), deco())]
+            for _ in range(1 + rng.below(3)):
+                r = rng.below(4)
+                if r == 0 and all_enums:
+                    t = all_enums[rng.below(len(all_enums))]
+                elif r == 1 and all_scalars:
+                    t = all_scalars[rng.below(len(all_scalars))]
+                elif r == 2:
+                    t = all_objs[rng.below(len(all_objs))]
+                else:
+                    t = "Int"
+                used.add(t)
+                arg = ""
+                if all_inputs and rng.below(3) == 0:
+                    a = all_inputs[rng.below(len(all_inputs))]
+                    used.add(a)
+                    arg = "(in: %s%s)" % (a, deco())
+                body.append("%s%s: %s%s" % (fp.pop(), arg, ["%s", "%s!", "[%s!]"][rng.below(3)] % t, deco()))
+            imp = [i for i in all_ifaces if o in impl[i]]
+            out.append("type %s%s%s {\n  %s\n}\n" % (o, " implements " + " & ".join(imp) if imp else "", deco(), "\n  ".join(body)))
+            qfields[k].append("%s: %s" % (o[0].lower() + o[1:], o))
+        for a in f["inputs"]:
+            fp = shuffle(rng, FIELDS)
+            body = ["name: String!%s" % deco()]
+            if all_enums:
+                t = all_enums[rng.below(len(all_enums))]
+                used.add(t)
+                body.append("%s: %s" % (fp.pop(), t))
+            out.append("input %s {\n  %s\n}\n" % (a, "\n  ".join(body)))
+        text[k] = shuffle(rng, out)
+    # everything defined is referenced (ReferencedTypes holds what is used): the rest goes onto Query fields next to its definition
+    for k in keys:
+        f = files[k]
+        for t in f["enums"] + f["scalars"]:
+            if t not in used:
+                qfields[k].append("%s: %s" % (t[0].lower() + t[1:], t))
+        for t in f["ifaces"]:
+            qfields[k].append("%s: [%s!]" % (t[0].lower() + t[1:], t))
+        for a in f["inputs"]:
+            if a not in used:
+                qfields[k].append("with%s(in: %s): Int" % (a, a))
+    # a union per project in some file
+    uk = keys[rng.below(len(keys))]
+    if len(all_objs) >= 2:
+        u = tn.pop() + "Result"
+        text[uk].append("union %s = %s\n" % (u, " | ".join(shuffle(rng, all_objs)[:2])))
+        qfields[uk].append("%s: %s" % (u[0].lower() + u[1:], u))
+    for k in keys:
+        if k == qhome:
+            text[k].append("type Query {\n  %s\n}\n" % "\n  ".join(qfields[k] or ["ping: Boolean"]))
+        elif qfields[k]:
+            text[k].append("extend type Query {\n  %s\n}\n" % "\n  ".join(qfields[k]))
+    out_files = {"%s/%s%s" % (k[0], k[1], ext): "".join(text[k]) for k in keys}
+    paths = sorted(out_files)
+    mode = rng.below(3)
+    if mode == 0:
+        schema = shuffle(rng, paths)
+    elif mode == 1:
+        schema = sorted({"%s/*.graphql" % os.path.dirname(p) for p in paths})
+        schema = shuffle(rng, schema)
+    else:
+        schema = ["**/*.graphql"]
+    y = "schema:\n" + "".join('  - "%s"\n' % x for x in schema)
+    exec_dir = [".", "graph"][rng.below(2)]
+    y += "exec:\n  layout: follow-schema\n  dir: %s\n  package: %s\n" % (exec_dir, name if exec_dir == "." else "graph")
+    tmpl = ["", "", "", "{name}.gen.go", "zz_{name}.go"][rng.below(5)]
+    if tmpl:
+        y += '  filename_template: "%s"\n' % tmpl
+    y += "model:\n  filename: model/models_gen.go\n  package: model\n"
+    r = rng.below(4)
+    if r < 2:
+        y += "resolver:\n  layout: follow-schema\n  dir: %s\n  package: %s\n" % (("res", "res") if r == 0 or exec_dir == "." else (exec_dir, "graph"))
+    elif r == 2:
+        y += "resolver:\n  filename: res/resolver.go\n  package: res\n  type: Resolver\n"
+    y += "skip_mod_tidy: true\n"
+    for o in ("omit_complexity", "use_function_syntax_for_execution_context", "omit_slice_element_pointers"):
+        if rng.below(4) == 0:
+            y += "%s: true\n" % o
+    out_files["gqlgen.yml"] = y
+    shared = sorted(b for b in bases if len([k for k in keys if k[1] == b]) > 1)
+    return {"files": out_files, "meta": {"dimension": "modular", "schema_files": paths, "shared_base_names": shared,
+                                         "object_free_base_names": sorted(b for b in bases if typeonly_base[b]),
+                                         "directives_with_arguments": dcount, "schema_list": schema, "filename_template": tmpl or "{name}.generated.go"}}
+
+
+DEF_RE = re.compile(r"^(type|input|interface|union|enum|scalar)\s+(\w+)", re.M)
+DIRDEF_RE = re.compile(r"^directive\s+@(\w+)\s*\(", re.M)
+
+
+def layout_summary(d):
+    """What codegen.generatePerSchema sees of the project in directory `d`, derived from its files (None unless the exec layout
+    is follow-schema without federation): per pass the elements (output file @ source), the directives with arguments, the
+    output files; `uncovered` = output files shared by several sources none of which holds an object or input type."""
+    y = open(os.path.join(d, "gqlgen.yml")).read()
+    m = re.search(r"^exec:\n((?:  .*\n)+)", y, re.M)
+    if not m or "layout: follow-schema" not in m.group(1) or re.search(r"^federation:", y, re.M):
+        return None
+    ex = m.group(1)
+    dm = re.search(r"^  dir: (\S+)", ex, re.M)
+    tm = re.search(r'^  filename_template: "?([^"\n]+)"?', ex, re.M)
+    tmpl = tm.group(1) if tm else "{name}.generated.go"
+    sm = re.search(r"^schema:\n((?:  - .*\n)+)", y, re.M)
+    if not sm:
+        return None
+    srcs = []
+    for pat in re.findall(r'^  - "?([^"\n]+)"?', sm.group(1), re.M):
+        if "**" in pat:
+            found = sorted(glob.glob(os.path.join(d, pat), recursive=True))
+        else:
+            found = sorted(glob.glob(os.path.join(d, pat)))
+        for f in found:
+            rel = os.path.relpath(f, d)
+            if rel not in srcs:
+                srcs.append(rel)
+    objects, inputs, ifaces, alltypes, dirs = [], [], [], [], []
+    by_out = {}
+    for src in srcs:
+        text = open(os.path.join(d, src)).read()
+        out = tmpl.replace("{name}", os.path.splitext(os.path.basename(src))[0])
+        g = by_out.setdefault(out, {"srcs": [], "covered": False})
+        g["srcs"].append(src)
+        for kind, n in DEF_RE.findall(text):
+            el = (n, out, src)
+            alltypes.append(el)
+            if kind == "type":
+                objects.append(el)
+                g["covered"] = True
+            elif kind == "input":
+                inputs.append(el)
+                g["covered"] = True
+            elif kind in ("interface", "union"):
+                ifaces.append(el)
+        for n in DIRDEF_RE.findall(text):
+            dirs.append((n, src))
+    return {"exec_dir": dm.group(1) if dm else ".", "sources": srcs,
+            "passes": {"addObjects": [(o, s) for _, o, s in sorted(objects)], "addInputs": [(o, s) for _, o, s in sorted(inputs)],
+                       "addInterfaces": [(o, s) for _, o, s in ifaces], "addReferencedTypes": [(o, s) for _, o, s in alltypes]},
+            "argdirs": dirs, "outputs": sorted(by_out),
+            "shared": sorted(o for o, g in by_out.items() if len(g["srcs"]) > 1),
+            "uncovered": sorted(o for o, g in by_out.items() if len(g["srcs"]) > 1 and not g["covered"])}
+
+
+# ------------------------------------------------------------------------------------------------ extra fields
+X_TYPES = ["string", "int64", "bool", "*string", "[]string", "float64", "time.Time", "*time.Time", "[]*time.Time",
+           "{{PKG}}/xbase.Stamp", "*{{PKG}}/xbase.Tenant", "[]{{PKG}}/xbase.Audit", "[]byte"]
+X_EMBED = ["{{PKG}}/xbase.Audit", "*{{PKG}}/xbase.Tenant", "{{PKG}}/xbase.Stamp", "{{PKG}}/xbase.Trail"]
+X_NAMES = ["Session", "tenantID", "CreatedBy", "updatedAt", "Zone", "audit", "Meta", "eTag", "Version", "owner", "Shard",
+           "traceID", "Flags", "cursor", "Aardvark", "zebra"]
+
+
+def extrafields(rng, name):
+    tn = shuffle(rng, WORDS)
+    n = 3 + rng.below(4)
+    objs = [tn.pop() for _ in range(n)]
+    inp = "New" + tn.pop()
+    files = {"xbase/types_src.go": "package xbase\n\n" + "".join("type %s struct {\n\tBy string\n\tAt int64\n}\n\n" % t for t in ("Audit", "Stamp", "Tenant", "Trail"))}
+    models_yml = ""
+    sdl = ("directive @goExtraField(name: String, type: String!, overrideTags: String, description: String) repeatable on OBJECT | INPUT_OBJECT\n")
+    summary = []
+    for i, t in enumerate(objs + [inp]):
+        # the first model has many named fields and nothing embedded, the second has both; then random
+        n_named = [5 + rng.below(3), 3 + rng.below(3)][i] if i < 2 else rng.below(6)
+        n_emb = [0, 1 + rng.below(2)][i] if i < 2 else (rng.below(3) if rng.below(2) else 0)
+        via = "config" if i == 0 else "directive" if i == 1 else ["config", "directive", "both"][rng.below(3)]
+        names = shuffle(rng, X_NAMES)[:n_named]
+        named = [(x, X_TYPES[rng.below(len(X_TYPES))]) for x in names]
+        emb = shuffle(rng, X_EMBED)[:n_emb]
+        cfg_named, dir_named = [], []
+        for j, nt in enumerate(named):
+            (cfg_named if via == "config" or (via == "both" and j % 2 == 0) else dir_named).append(nt)
+        cfg_emb = emb if via == "config" else []
+        dir_emb = emb if via != "config" else []
+        if cfg_named or cfg_emb:
+            models_yml += "  %s:\n" % t
+            if cfg_named:
+                models_yml += "    extraFields:\n"
+                for fnm, ft in cfg_named:
+                    models_yml += '      %s:\n        type: "%s"\n' % (fnm, ft)
+                    r = rng.below(4)
+                    if r == 0:
+                        models_yml += '        description: "%s of %s"\n' % (fnm, t)
+                    elif r == 1:
+                        models_yml += "        overrideTags: 'json:\"%s,omitempty\" db:\"%s\"'\n" % (fnm, fnm.lower())
+            if cfg_emb:
+                models_yml += "    embedExtraFields:\n" + "".join('      - type: "%s"\n' % e for e in cfg_emb)
+        ds = ['@goExtraField(name: "%s", type: "%s"%s)' % (fnm, ft, ', description: "set by middleware"' if rng.below(4) == 0 else "") for fnm, ft in dir_named]
+        ds += ['@goExtraField(type: "%s")' % e for e in dir_emb]
+        ds = shuffle(rng, ds)
+        kw = "input" if t == inp else "type"
+        fp = shuffle(rng, FIELDS)
+        body = ["id: ID!", "%s: String" % fp.pop(), "%s: Int!" % fp.pop()]
+        if kw == "type" and rng.below(2):
+            body.append("%s: %s" % (fp.pop(), objs[rng.below(len(objs))]))
+        sdl += "%s %s%s {\n  %s\n}\n" % (kw, t, "".join("\n  " + x for x in ds), "\n  ".join(body))
+        summary.append({"type": t, "named": named, "embedded": emb, "via": via, "schema_fields": len(body)})
+    sdl += "type Query {\n  %s\n}\n" % "\n  ".join("%s: %s" % (t.lower(), t) for t in shuffle(rng, objs))
+    sdl += "type Mutation {\n  create(in: %s!): %s!\n}\n" % (inp, objs[0])
+    extra = ""
+    for o in ("omit_getters", "enable_model_json_omitempty_tag", "omit_root_models"):
+        if rng.below(3) == 0:
+            extra += "%s: true\n" % o
+    if models_yml:
+        extra += "models:\n" + models_yml
+    files["schema.graphql"] = sdl
+    files["gqlgen.yml"] = yml(name, ["follow", "none"][rng.below(2)], extra)
+    return {"files": files, "meta": {"dimension": "extrafields", "extra": summary}}
+
+
+def extra_summary(d, pkg):
+    """The extra fields of every model of the project in `d`, derived from its files: `models.<T>.extraFields` /
+    `embedExtraFields` of gqlgen.yml (the format the generators and the corpus write) and @goExtraField in the schema.
+    -> [{"type", "named": [(name, type)], "embedded": [type]}] with Go type strings as types.Type.String() prints them."""
+    y = open(os.path.join(d, "gqlgen.yml")).read()
+    out = {}
+    mm = re.search(r"^models:\n((?:  .*\n)+)", y, re.M)
+    if mm:
+        for tm in re.finditer(r"^  (\w+):\n((?:    .*\n)+)", mm.group(1), re.M):
+            e = out.setdefault(tm.group(1), {"named": {}, "embedded": []})
+            xm = re.search(r"^    extraFields:\n((?:      .*\n)+)", tm.group(2), re.M)
+            if xm:
+                for fm in re.finditer(r'^      (\w+):\n((?:        .*\n)+)', xm.group(1), re.M):
+                    e["named"][fm.group(1)] = re.search(r'type: "?([^"\n]+)"?', fm.group(2)).group(1)
+            em = re.search(r"^    embedExtraFields:\n((?:      .*\n)+)", tm.group(2), re.M)
+            if em:
+                e["embedded"] += re.findall(r'- type: "?([^"\n]+)"?', em.group(1))
+    for f in sorted(glob.glob(os.path.join(d, "**", "*.graphql"), recursive=True)):
+        text = open(f).read()
+        for tm in re.finditer(r"^(?:type|input)\s+(\w+)([^{]*)\{", text, re.M):
+            for dm in re.finditer(r"@goExtraField\(([^)]*)\)", tm.group(2)):
+                args = dict(re.findall(r'(\w+):\s*"([^"]*)"', dm.group(1)))
+                e = out.setdefault(tm.group(1), {"named": {}, "embedded": []})
+                if args.get("name"):
+                    e["named"][args["name"]] = args["type"]
+                else:
+                    e["embedded"].append(args["type"])
+    return [{"type": t, "named": sorted(e["named"].items()), "embedded": e["embedded"]}
+            for t, e in sorted(out.items()) if e["named"] or e["embedded"]]
 
 
 # ------------------------------------------------------------------------------------------------ writing
